@@ -384,7 +384,7 @@ def r_uid_format(model, rep):
     d = facts.fctx(model, model.own_method("composeinfo.Variant", "deserialize"))
     formats(d, lambda a: T.attr_chain(a) == "self.uid", lambda b: b[0] in ("bound", "elem"), "Variant.deserialize(children)")
     t = facts.fctx(model, model.own_method("composeinfo.Variants", "deserialize"))
-    formats(t, lambda a: a[0] == "sub" and a[2] == ("const", "uid"), lambda b: b[0] == "elem", "Variants.deserialize(top-level detection)")
+    formats(t, lambda a: a[0] == "sub" and a[2] == ("const", "uid"), lambda b: b[0] in ("elem", "bound"), "Variants.deserialize(top-level detection)")
     labels = [s[0] for s in sites]
     for want in ("Variant._validate_uid", "Variant.deserialize(children)", "Variants.deserialize(top-level detection)"):
         if want not in labels:
